@@ -1397,9 +1397,16 @@ func (*log).GC
 
 pred lockFile(dir string) := pathJoin(dir, ".lock")
 
-// ASSUMED (I/O, names): the segments found in a directory, ordered by base offset
+// I/O over directory entries. The UNLABELLED clause (the entries come sorted by name, names are canonical, so the
+// segments are ordered by base offset) is ASSUMED. Proved: the base offset handed to segment.New is the DECIMAL
+// value of the file name's stem, in the caller's directory - so for a canonical name (one that the segment name
+// format reproduces from its decimal value) the segment gets back exactly the file it was found as.
 func segment.Find
-    flags assumed
+    flags noframe only_names
+    assert[names_roundtrip] sprintf("%020d.log", decOf(offsetStr)) == offsetStr + ".log" ==> sprintf("%020d.log", arg1) == offsetStr + ".log" at call New 1
+    assert[names_dir]       arg0 == dir && arg2 == autoSync at call New 1
+    loop 1
+      invariant[names] true
     ensures ret1 == nil ==> (forall i :: 0 <= i && i < len(ret0) ==> ret0[i].Offset >= 0)
                             && (forall i, j :: 0 <= i && i < j && j < len(ret0) ==> ret0[i].Offset < ret0[j].Offset)
                             && len(ret0) < 1152921504606846976
